@@ -132,6 +132,50 @@ def exit_at(rng, point, blackout=False):
         s.close()
 
 
+def bookkeeping_probe(rng):
+    """TaskBook.tla binding: the model's negative control orphans a task that is added while the tidy
+    pass is suspended between reading and replacing the list.  On the real manager a probe task is
+    added at EVERY loop iteration across several tidy passes (some probes finish at once, so the pass
+    always has something to tidy); every live probe must be on the list and cancelling the family
+    must end them all."""
+    with tidy_period(0.3):
+        with AsyncSession(rank="stable") as s:
+            if not s.wait_connected(60):
+                raise env.MachineryError("bookkeeping probe: no connection")
+            man, loop = s.man, s.loop
+            added, n, armed, per_ms = [], [0], [True], {}
+            orig = loop._run_once
+
+            async def nop():
+                return None
+
+            def hooked():
+                # a probe that ends at once keeps the loop ready, so the count per virtual millisecond is
+                # capped (time must advance); 6 covers the iterations a suspended pass takes to resume
+                ms = int(loop.time() * 1000)
+                if armed[0] and per_ms.get(ms, 0) < 6 and n[0] < 6000:
+                    per_ms[ms] = per_ms.get(ms, 0) + 1
+                    n[0] += 1
+                    man.add_task(nop() if n[0] % 3 == 0 else asyncio.sleep(60.0), f"probe{n[0]}", "GVPROBE")
+                    added.append(man._tasks[-1])
+                orig()
+
+            loop._run_once = hooked
+            try:
+                s.advance(2.0)
+            finally:
+                armed[0] = False
+                loop._run_once = orig
+            orphans = [t.get_name() for t in added if not t.done() and t not in man._tasks]
+            man.cancel_key_tasks("GVPROBE")
+            s.advance(0.3)
+            still = [t for t in added if not t.done()]
+            for t in still:
+                t.cancel()
+            s.advance(0.1)
+    return [{"kind": "book", "probes": len(added), "n_orphans": len(orphans), "orphans": orphans[:5], "alive_after_cancel": len(still)}]
+
+
 def cycles(rng, n):
     mx_e = mx_t = 0
     with AsyncSession(rank="stable") as s:
@@ -174,6 +218,13 @@ def run(ctx):
             recs += exit_at(rng, 9.0)
             recs += [r_ for r_ in reset_at(rng, 9.0) if r_["kind"] == "reset"]
     recs += cycles(rng, 5 if ctx.quick else 20)
+    rb = tlc.model_check("TaskBook", "TaskBook_TRUE.cfg", workers=2, timeout=120, tag="TaskBook")
+    ctx.tlc_design("TaskBook: task list bookkeeping with an atomic tidy pass (NoOrphan, CancelIsComplete)", rb)
+    rb2 = tlc.model_check("TaskBook", "TaskBook_FALSE.cfg", workers=2, timeout=120, tag="TaskBook-ctl", coverage=False)
+    ev.add_tlc("negative control: tidy pass that awaits between reading and replacing the list (must be refuted)", rb2)
+    if "NoOrphan" not in rb2.violated:
+        raise env.MachineryError("negative control not refuted")
+    recs += bookkeeping_probe(rng)
     bad, n = tlc.judge("C10_Judge", recs, "c10", chunk=500)
     for idx, why in bad:
         r_ = recs[idx]
